@@ -4,7 +4,7 @@ Every class is importable by module path (never __main__).  Slots that hold
 configurations are typed with the common base `N`, so that any node can be placed
 anywhere and arbitrary sharing and cycles can be built.
 """
-from enum import Enum
+from enum import Enum, IntEnum
 from pathlib import Path
 from typing import Dict, List, Optional
 
@@ -21,6 +21,16 @@ class Color(Enum):
 class Shape(Enum):
     DOT = "."
     BOX = "#"
+
+
+class Level(IntEnum):
+    LOW = 1
+    HIGH = 2
+
+
+class Mode(str, Enum):
+    FAST = "fast"
+    SLOW = "slow"
 
 
 class N(Config):
@@ -182,11 +192,18 @@ class W2(N):
     c: Param[Optional[N]]
 
 
+class EH(N):
+    """enumerations that are also ints / strs"""
+    lv: Param[Level] = Level.LOW
+    md: Param[Optional[Mode]]
+    x: Param[int] = 0
+
+
 class S2(N):
     """two sibling strings (the unterminated-string collision family)"""
     a: Param[str]
     b: Param[str] = ""
 
 
-CLASSES = {c.__name__: c for c in [K1, K2, W1, W2, S2, Leaf, Inner, Bag, Req, TaskA, TaskOut, Pre, Init, NewL, OldL, NewT, OldT, V1, V2]}
-ENUMS = {"Color": Color, "Shape": Shape}
+CLASSES = {c.__name__: c for c in [K1, K2, W1, W2, S2, EH, Leaf, Inner, Bag, Req, TaskA, TaskOut, Pre, Init, NewL, OldL, NewT, OldT, V1, V2]}
+ENUMS = {"Color": Color, "Shape": Shape, "Level": Level, "Mode": Mode}
